@@ -722,7 +722,8 @@ func TestOwnerSetsRapid(t *testing.T) {
 			}
 			var owners []own
 			for o := 0; o < nO; o++ {
-				instID := fmt.Sprintf("inst-zone-%s-%d", rapid.SampledFrom([]string{"a", "b", "c"}).Draw(rt, "ozone"), rapid.IntRange(0, 3).Draw(rt, "oidx"))
+				ozone, oidx := rapid.SampledFrom([]string{"a", "b", "c"}).Draw(rt, "ozone"), rapid.IntRange(0, 3).Draw(rt, "oidx")
+				instID := fmt.Sprintf("inst-%d-%s", oidx, ozone) // sorted by id, the zones alternate
 				p := int32(rapid.IntRange(0, nP-1).Draw(rt, "owned"))
 				ownerID := instID
 				if multi {
